@@ -156,10 +156,10 @@ func vLoopCycle(c *Coordinator) bool { return zzv.Crashed(func() { _ = c.runOnce
 
 // VLoop (C03 / C06, multi-cycle layer): S sidecars, K targets of concrete sizes that all fit, an
 // arbitrary consistent initial placement (each target absent / normal / in_transfer on each
-// shard), optionally one fault (fault > 0) at a chosen cycle, then fault-free cycles with 3
+// shard), optionally one or two faults at chosen cycles, then fault-free cycles with 3
 // scrapes of every assigned target between cycles. Within H cycles the placement must be
 // converged, and one further cycle must change nothing. fault: low bits = number of injected
-// faults (0 or 1); bit 4 (16) = fixed spread initial placement (used for K = 2).
+// faults (0, 1 or 2); bit 4 (16) = fixed spread initial placement (used for K = 2).
 func VLoop(S, K, H, fault int) {
 	vLoopK = uint64(K)
 	sizes := []int64{100, 40, 70}
@@ -222,24 +222,40 @@ func VLoop(S, K, H, fault int) {
 	c := NewCoordinator(opt, &vReplicas{ms: []shard.Manager{m}}, vConfig, explorer,
 		func() map[uint64]*discovery.SDTargets { return active }, prometheus.NewRegistry(), vLogger())
 
-	faultAt := -1
+	// fault schedule: the first fault at cycle 0 or 1, a second one (fault&15 == 2) one or two
+	// cycles later
+	faultAt, fault2At := -1, -1
 	if fault&15 > 0 {
 		faultAt = zzv.Choose("fault.cycle", 2)
+	}
+	if fault&15 > 1 {
+		fault2At = faultAt + 1 + zzv.Choose("fault2.gap", 2)
+	}
+	lastFault := faultAt
+	if fault2At > lastFault {
+		lastFault = fault2At
+	}
+	inject := func(tag string) {
+		victim := m.shards[zzv.Choose(tag+".shard", len(m.shards))]
+		switch zzv.Choose(tag+".kind", 3) {
+		case 0:
+			victim.dropPost = true
+		case 1:
+			victim.notReady = true
+		case 2:
+			// the sidecar process restarts: a fresh manager on the same store
+			victim.sc = sidecar.VNewSidecar(victim.dir)
+		}
+		zzv.Cover("loop.fault")
 	}
 	convergedAt := -1
 	for n := 0; n < H; n++ {
 		if n == faultAt && len(m.shards) > 0 {
-			victim := m.shards[zzv.Choose("fault.shard", len(m.shards))]
-			switch zzv.Choose("fault.kind", 3) {
-			case 0:
-				victim.dropPost = true
-			case 1:
-				victim.notReady = true
-			case 2:
-				// the sidecar process restarts: a fresh manager on the same store
-				victim.sc = sidecar.VNewSidecar(victim.dir)
-			}
-			zzv.Cover("loop.fault")
+			inject("fault")
+		}
+		if n == fault2At && len(m.shards) > 0 {
+			inject("fault2")
+			zzv.Cover("loop.fault.second")
 		}
 		crashed := vLoopCycle(c)
 		zzv.Assert("C01.c.loop.nocrash", !crashed)
@@ -252,7 +268,7 @@ func VLoop(S, K, H, fault int) {
 		}
 		// the sidecars' clock moves on between cycles
 		sidecar.VSetNow(base.Add(-time.Duration(H-n) * 2 * time.Hour))
-		if n > faultAt && m.converged(K) && convergedAt < 0 {
+		if n > lastFault && m.converged(K) && convergedAt < 0 {
 			convergedAt = n
 		}
 	}
